@@ -65,6 +65,10 @@ type kvElection struct {
 	promoteStarted chan struct{}
 	stopped        bool // a stop call has been made and Start has not been called since (guarded by mu)
 	stopping       int  // stop calls that have not returned yet (guarded by mu)
+	// windDown is closed when the background goroutines of the run that the latest stop
+	// call ended have all returned; a stop call that gives up waiting returns before that
+	// (guarded by mu)
+	windDown chan struct{}
 
 	// acquireSem (capacity 1) serializes the acquisition attempts of this instance
 	// (Start, retry rounds, takeover opportunities): overlapping attempts could each
@@ -215,6 +219,16 @@ func (e *kvElection) Start(ctx context.Context) error {
 	// key deletion, OnDemote): a new run must not overlap it.
 	if e.stopping > 0 {
 		return ErrAlreadyStarted
+	}
+	// A stop call gave up waiting and the goroutines of that run are still winding down
+	// (its wg.Wait has not returned): the WaitGroup must not be reused yet.
+	if e.windDown != nil {
+		select {
+		case <-e.windDown:
+			e.windDown = nil
+		default:
+			return ErrAlreadyStarted
+		}
 	}
 	// The previous run ended with its context and its leadership has not been given
 	// up yet (the step-down is under way): a new run must not inherit it.
@@ -830,6 +844,9 @@ func (e *kvElection) Stop() error {
 	}
 
 	done := make(chan struct{})
+	e.mu.Lock()
+	e.windDown = done
+	e.mu.Unlock()
 	go func() {
 		e.wg.Wait()
 		close(done)
@@ -925,6 +942,9 @@ func (e *kvElection) StopWithContext(ctx context.Context, opts StopOptions) erro
 	deadline := time.Now().Add(timeout)
 
 	done := make(chan struct{})
+	e.mu.Lock()
+	e.windDown = done
+	e.mu.Unlock()
 	go func() {
 		e.wg.Wait()
 		close(done)
